@@ -63,6 +63,8 @@ func (s *_watchSession) done() <-chan struct{} {
 }
 
 func (s *_watchSession) stop() {
+	// a session still connecting only returns once its context is cancelled
+	s.cancel()
 	s.lc.ShutdownAsync(nil)
 }
 
